@@ -148,6 +148,8 @@ def finish(pid, tier, seed, E, results, t0, extra=None):
                 default=str,
             )
         lines.append("VIOLATION property=%s replay=%s%s" % (pid, rp, "" if confirmed else " no-failing-input-found"))
+    for kl in (extra or {}).get("known_lines", []):
+        lines.append(kl)
     for extra_v in (extra or {}).get("violations", []):
         lines.append(extra_v)
     for extra_e in (extra or {}).get("engine", []):
